@@ -42,6 +42,8 @@ fn checks() -> Vec<Check> {
         sim::c07::check(),
         sim::c10::check(),
         sim::c11::check(),
+        sim::c12::check(),
+        sim::c14::check(),
         sim::c20::check(),
         web::c15::check(),
         web::c17::check(),
